@@ -64,6 +64,11 @@ STEADY_GRIDS = GRIDS + ("subset_perm",)
 TOBS = ("final", "Final", "all", "explicit_final", "on_nodes", "single_mid_node", "off_nodes", "mixed", "list_on_nodes", "ALL")
 MAPS = ("none", "square", "matrix", "pick")
 HIST = ("fresh", "reassemble", "regrid_obs", "regrid_sol")
+# representation of what the user's PDE form / grids / parameter hand to the library (values are the same numbers)
+TIME_DTYPES = ("float", "ic_int", "ic_bool", "float", "ic_f32", "ic_list", "par_int", "float", "ts_int", "grid_int", "src_int")
+STEADY_DTYPES = ("float", "b_int", "b_list", "float", "p_int", "p_list", "A_int", "grid_int")
+SCENARIOS = ("inplace_input", "inplace_input_grad", "settings_grid_obs", "settings_map", "settings_grid_sol", "settings_method",
+             "output_mutated")
 
 
 def _steady_solvers(form, fmt):
@@ -99,7 +104,8 @@ def cases(tier, seed):
                 for solver in _steady_solvers(form, fmt):
                     out.append({"kind": "steady", "form": form, "fmt": fmt, "solver": solver,
                                 "grid": STEADY_GRIDS[i % len(STEADY_GRIDS)], "map": MAPS[(i // 3) % len(MAPS)] if rep else rg.choice(MAPS),
-                                "hist": HIST[(i // 2) % len(HIST)] if rep == 0 else rg.choice(HIST), "rep": rep})
+                                "hist": HIST[(i // 2) % len(HIST)] if rep == 0 else rg.choice(HIST), "rep": rep,
+                                "dtype": STEADY_DTYPES[(i // 3) % len(STEADY_DTYPES)]})
                     i += 1
     # ---- time dependent
     i = 0
@@ -112,7 +118,8 @@ def cases(tier, seed):
                             out.append({"kind": "time", "form": form, "fmt": fmt, "method": method, "solver": solver,
                                         "tgrid": tgrid, "grid": GRIDS[i % len(GRIDS)], "tobs": TOBS[(i // 2) % len(TOBS)] if rep == 0 else rg.choice(TOBS),
                                         "map": rg.choice(MAPS), "hist": ("fresh", "reassemble", "regrid_obs", "regrid_sol", "switch_method", "fresh")[(i // 5) % 6] if rep == 0 else
-                                        rg.choice(("fresh", "fresh", "reassemble", "regrid_obs", "regrid_sol", "switch_method")), "rep": rep})
+                                        rg.choice(("fresh", "fresh", "reassemble", "regrid_obs", "regrid_sol", "switch_method")), "rep": rep,
+                                        "dtype": TIME_DTYPES[(i + i // len(TIME_DTYPES)) % len(TIME_DTYPES)]})
                             i += 1
     # ---- black-box observation of polynomial solutions
     for rep in range(reps[2]):
@@ -137,6 +144,20 @@ def cases(tier, seed):
                                 c.update({"method": rg.choice(METHODS), "tgrid": rg.choice(("uniform", "nonuniform", "two_phase")),
                                           "tobs": rg.choice(("final", "final", "all", "on_nodes", "off_nodes", "explicit_final"))})
                             out.append(c)
+    # ---- histories on one PDEModel object
+    for rep in range({"quick": 1, "thorough": 8}[tier]):
+        for pde in ("steady", "time"):
+            for form in (STEADY_FORMS if pde == "steady" else TIME_FORMS):
+                for geom in ("int", "continuous1d", "harness_exp"):
+                    for scen in SCENARIOS:
+                        if scen == "settings_method" and pde == "steady":
+                            continue
+                        c = {"kind": "history", "pde": pde, "form": form, "geom": geom, "scenario": scen, "input": "ndarray", "jac": "jacobian",
+                             "grid": rg.choice(("sol_only", "subset", "offnode", "mixed", "equal_copy")), "map": rg.choice(MAPS[:3]), "rep": rep}
+                        if pde == "time":
+                            c.update({"method": rg.choice(METHODS), "tgrid": rg.choice(("uniform", "nonuniform", "two_phase")),
+                                      "tobs": rg.choice(("final", "final", "explicit_final", "single_mid_node", "all", "off_nodes"))})
+                        out.append(c)
     # ---- shipped PDE objects
     for rep in range({"quick": 1, "thorough": 8}[tier]):
         for prob in ("Heat1D", "Poisson1D"):
@@ -159,7 +180,7 @@ def cases(tier, seed):
 
 
 def crash_config(case):
-    return {k: case[k] for k in ("kind", "pde", "form", "fmt", "solver", "method", "grid", "tobs", "map", "geom", "problem", "what") if k in case}
+    return {k: case[k] for k in ("kind", "pde", "form", "fmt", "solver", "method", "grid", "tobs", "map", "geom", "problem", "what", "dtype", "scenario") if k in case}
 
 
 _cfg = crash_config
@@ -429,6 +450,73 @@ def _time_problem(rs, form, n, symmetric):
     raise ValueError(form)
 
 
+# --------------------------------------------------------------------------- dtype / container variants
+def _int_grid(rs, n):
+    return int(rs.randint(-2, 3)) + np.concatenate([[0], np.cumsum(rs.randint(1, 4, n - 1))]).astype(int)
+
+
+def _typed_time(form0, sampler0, dk, formname):
+    """(pure float64 form, lib-facing caster, sampler): the numbers are identical, only dtype/container differ."""
+    sA = 0.25 if dk == "ts_int" else 1.0
+    def pure(p, t):
+        A, f, ic = form0(np.asarray(p, dtype=float), float(t))
+        A, f = A * sA, f * sA
+        if dk in ("ic_int", "ic_list"):
+            ic = np.round(2 * ic)
+        elif dk == "ic_bool":
+            ic = (ic > 0).astype(float)
+        elif dk == "ic_f32":
+            ic = ic.astype(np.float32).astype(float)
+        elif dk == "par_int" and formname == "ic_par":
+            ic = np.array(p, dtype=float).ravel()
+        elif dk == "src_int":
+            f = np.round(3 * f)
+        return A, f, ic
+    def cast(p, o):
+        A, f, ic = o
+        if dk == "ic_int":
+            ic = ic.astype(int)
+        elif dk == "ic_list":
+            ic = [int(v) for v in ic]
+        elif dk == "ic_bool":
+            ic = ic.astype(bool)
+        elif dk == "ic_f32":
+            ic = ic.astype(np.float32)
+        elif dk == "par_int" and formname == "ic_par":
+            ic = p                      # the integer parameter itself is the initial condition
+        elif dk == "src_int":
+            f = f.astype(int)
+        return A, f, ic
+    sampler = (lambda: np.round(3 * np.asarray(sampler0())).astype(int)) if dk == "par_int" else sampler0
+    return pure, cast, sampler
+
+
+def _typed_steady(form0, sampler0, dk):
+    def pure(p):
+        A, b = form0(np.asarray(p, dtype=float))
+        if dk in ("b_int", "b_list"):
+            b = np.round(3 * b)
+        elif dk == "A_int":
+            A = np.round(4 * A) + 3 * np.eye(len(b))
+        return A, b
+    def cast(o):
+        A, b = o
+        if dk == "b_int":
+            b = b.astype(int)
+        elif dk == "b_list":
+            b = [int(v) for v in b]
+        elif dk == "A_int":
+            A = A.astype(int)
+        return A, b
+    if dk == "p_int":
+        sampler = lambda: np.round(2 * np.asarray(sampler0())).astype(int)
+    elif dk == "p_list":
+        sampler = lambda: [float(v) for v in np.asarray(sampler0()).ravel()]
+    else:
+        sampler = sampler0
+    return pure, cast, sampler
+
+
 # --------------------------------------------------------------------------- reference observation
 def _restrict_or_interp_matrix(grid, obs, k):
     """Linear operator nodal values -> observed values: unit rows at coinciding nodes (exact restriction),
@@ -511,10 +599,12 @@ def _check_info(ctx, info, solver_calls, cfg, which="last"):
 def _build_steady_pde(ctx, rs, case, n=None):
     import cuqi
     n = n or int(rs.randint(5, 33))
-    form_pure, sampler, m = _steady_problem(rs, case["form"], n)
+    form0, sampler0, m = _steady_problem(rs, case["form"], n)
+    dk = case.get("dtype", "float")
+    form_pure, cast, sampler = _typed_steady(form0, sampler0, dk)
     fmt = case.get("fmt", "dense")
-    rec_form = RecCallable(lambda p: (lambda Ab: (_fmt(Ab[0], fmt), Ab[1]))(form_pure(p)))
-    x = _mk_grid(rs, n)
+    rec_form = RecCallable(lambda p: (lambda Ab: (_fmt(Ab[0], fmt), Ab[1]))(cast(form_pure(p))))
+    x = _int_grid(rs, n) if dk == "grid_int" else _mk_grid(rs, n)
     gk = case["grid"]
     grid_obs = _mk_obs_grid(rs, x, gk)
     n_obs = n if grid_obs is None else len(grid_obs)
@@ -616,6 +706,8 @@ def _run_steady(case, ctx, rs):
     u, info = pde.solve()
     if len(S["solver"].calls) - n_before != 1:
         ctx.violation("solver_call_count", cfg, detail=f"one solve() made {len(S['solver'].calls) - n_before} solver calls")
+    if case.get("dtype", "float") != "float":
+        ctx.count("nonfloat_variant_steady_checked")
     u = _judge_steady_solution(ctx, S, p, u, info, {**cfg, "hist": hist})
     if u is None:
         return
@@ -633,7 +725,7 @@ def _run_steady(case, ctx, rs):
         cfg = {**cfg, "regrid": newkind}
     elif hist == "regrid_sol" and x is not None:
         core.outcome(pde.observe, u)
-        x2 = x.copy()
+        x2 = x.astype(float)
         x2[1:-1] += 0.3 * np.minimum(np.diff(x)[:-1], np.diff(x)[1:]) * rs.uniform(-1, 1, len(x) - 2)
         if grid_obs is None:
             S["grid_obs"] = grid_obs = x      # the library stored the old solution grid as observation grid
@@ -656,11 +748,15 @@ def _build_time_pde(ctx, rs, case, n=None, ts=None, x=None):
     import cuqi
     n = n or int(rs.randint(4, 21))
     solver_name = case.get("solver", "own")
-    form_pure, sampler, m = _time_problem(rs, case["form"], n, symmetric=(solver_name == "cg_tuple"))
+    form0, sampler0, m = _time_problem(rs, case["form"], n, symmetric=(solver_name == "cg_tuple"))
+    dk = case.get("dtype", "float")
+    form_pure, cast, sampler = _typed_time(form0, sampler0, dk, case["form"])
     fmt = case.get("fmt", "dense")
-    rec_form = RecCallable(lambda p, t: (lambda o: (_fmt(o[0], fmt), o[1], o[2]))(form_pure(p, t)))
+    rec_form = RecCallable(lambda p, t: (lambda o: (_fmt(o[0], fmt), o[1], o[2]))(cast(p, form_pure(p, t))))
     ts = _mk_time_grid(rs, case["tgrid"]) if ts is None else ts
-    x = _mk_grid(rs, n) if x is None else x
+    if dk == "ts_int":
+        ts = int(rs.randint(-1, 3)) + np.concatenate([[0], np.cumsum(rs.randint(1, 4, len(ts) - 1))]).astype(int)
+    x = (_int_grid(rs, n) if dk == "grid_int" else _mk_grid(rs, n)) if x is None else x
     gk = case["grid"]
     grid_obs = _mk_obs_grid(rs, x, gk)
     n_obs = n if grid_obs is None else len(grid_obs)
@@ -839,6 +935,10 @@ def _run_time(case, ctx, rs):
         ctx.count("fe_info_observed")
         if sc_:
             ctx.note("fe_solver_calls", len(sc_))
+    if case.get("dtype", "float") != "float":
+        ctx.count("nonfloat_variant_levels_checked", len(S["ts"]) - 1)
+    if not (isinstance(U, np.ndarray) and U.dtype == np.float64):
+        ctx.note("solution_dtype", str(getattr(U, "dtype", type(U))))
     U = _judge_time_solution(ctx, S, p, U, info, {**cfg, "hist": hist}, fc, sc_)
     if U is None:
         return
@@ -855,7 +955,7 @@ def _run_time(case, ctx, rs):
     elif hist == "regrid_sol" and S["x"] is not None:
         core.outcome(pde.observe, U)
         x = S["x"]
-        x2 = x.copy()
+        x2 = x.astype(float)
         x2[1:-1] += 0.3 * np.minimum(np.diff(x)[:-1], np.diff(x)[1:]) * rs.uniform(-1, 1, len(x) - 2)
         if S["grid_obs"] is None:
             S["grid_obs"] = x            # the library stored the old solution grid as observation grid
@@ -943,11 +1043,11 @@ def _fd_jac(F, z, h=1e-6):
     return J
 
 
-def _run_model(case, ctx, rs):
+def _setup_model(case, ctx, rs, glog, plain_range=False):
+    """A PDEModel around a harness PDE (with the user-side Jacobian hooks), its reference pipeline and geometry maps."""
     import cuqi
     cfg = _cfg(case)
     jac_mode = case["jac"]
-    glog = []
     sub = dict(case)
     sub.update({"fmt": rs.choice(["dense", "csr"]), "solver": "own", "hist": "fresh"})
     # --- the PDE, as a harness subclass carrying the user-side Jacobian hooks
@@ -1007,13 +1107,25 @@ def _run_model(case, ctx, rs):
         par2fun = lambda p: np.exp(0.3 * np.asarray(p))
     y0 = ref_pipeline(par2fun(np.zeros(m) + 0.1))
     out_is_1d = (y0.ndim == 1)
-    if y0.ndim == 2 and (case["input"] == "cuqiarray" or rs.rand() < 0.5):
+    if plain_range:
+        rng_geom, flat = int(max(1, y0.size)), False
+    elif y0.ndim == 2 and (case["input"] == "cuqiarray" or rs.rand() < 0.5):
         rng_geom = cuqi.geometry.Continuous2D(tuple(int(s) for s in y0.shape))      # fun2par = C-order flattening
         flat = True
     else:
         rng_geom = cuqi.geometry.Continuous1D(y0.size) if (out_is_1d and rs.rand() < 0.5) else int(max(1, y0.size))
         flat = False
     model = cuqi.model.PDEModel(pde, rng_geom, dom)
+    return dict(S=S, pde=pde, m=m, gk=gk, positive=positive, par2fun=par2fun, ref_pipeline=ref_pipeline, y0=y0,
+                out_is_1d=out_is_1d, flat=flat, model=model, jac_mode=jac_mode, cfg=cfg)
+
+
+def _run_model(case, ctx, rs):
+    import cuqi
+    glog = []
+    M = _setup_model(case, ctx, rs, glog)
+    S, pde, m, gk, positive, par2fun, ref_pipeline = M["S"], M["pde"], M["m"], M["gk"], M["positive"], M["par2fun"], M["ref_pipeline"]
+    y0, out_is_1d, flat, model, jac_mode, cfg = M["y0"], M["out_is_1d"], M["flat"], M["model"], M["jac_mode"], M["cfg"]
     # --- forward, several parameters in a row on the same model (history)
     for rep in range(3):
         p = rs.uniform(-1, 1, m) if positive else np.asarray(S["sampler"](), dtype=float).ravel()
@@ -1097,6 +1209,124 @@ def _run_model(case, ctx, rs):
         if float(np.max(np.abs(g - g2))) > 1e-4 * sc + 20 * est:
             ctx.violation("model_gradient_mismatch", cfg, detail=f"gradient vs central differences of forward: max diff {np.max(np.abs(g-g2)):.3e} (fd error estimate {est:.1e}, scale {sc:.3e})",
                           witness={"got": g[:10], "fd": g2[:10]})
+
+
+# --------------------------------------------------------------------------- histories on one PDEModel object
+def _run_history(case, ctx, rs):
+    """One PDEModel object, used the way a sampler / optimiser uses it: the caller's parameter buffer is updated in place
+    between calls, observation settings of the pde are changed between two calls with equal input, the caller edits
+    the returned array.  Every result is compared with assemble-solve-observe by hand for the *current* values; inputs
+    must come back unchanged and arrays returned earlier must not change afterwards."""
+    glog = []
+    M = _setup_model(case, ctx, rs, glog, plain_range=True)
+    S, pde, m, gk, positive, par2fun, ref = M["S"], M["pde"], M["m"], M["gk"], M["positive"], M["par2fun"], M["ref_pipeline"]
+    model, out_is_1d, y0 = M["model"], M["out_is_1d"], M["y0"]
+    scen = case["scenario"]
+    cfg = {**M["cfg"], "scenario": scen}
+    newp = lambda: rs.uniform(-1, 1, m) if positive else np.asarray(S["sampler"](), dtype=float).ravel()
+    returned = []          # (array object, snapshot) of everything the model handed out
+
+    def forward_checked(arg, stage):
+        before = np.array(arg, copy=True)
+        y = model.forward(arg)
+        ctx.count("input_unchanged_checked")
+        if not np.array_equal(np.asarray(arg), before):
+            ctx.violation("input_mutated", {**cfg, "by": "forward"}, detail=f"{stage}: forward changed its input array in place")
+        exp = ref(par2fun(before.astype(float)))
+        ctx.count("history_forward_compared")
+        _cmp(ctx, np.asarray(y, dtype=float), exp, 1e-8, "model_forward_stale", {**cfg, "stage": stage},
+             f"{stage}: PDEModel.forward vs assemble-solve-observe by hand for the current parameter and settings",
+             scale=max(1.0, float(np.max(np.abs(exp))) if exp.size else 1.0))
+        if isinstance(y, np.ndarray):
+            returned.append((y, np.array(y, copy=True)))
+        return y
+
+    def gradient_checked(d, arg, stage):
+        b_arg, b_d = np.array(arg, copy=True), np.array(d, copy=True)
+        kind, g = core.outcome(model.gradient, d, arg)
+        if kind != "value":
+            ctx.violation("gradient_refused", {**cfg, "exc": type(g).__name__}, detail=repr(g)); return
+        ctx.count("input_unchanged_checked")
+        if not (np.array_equal(arg, b_arg) and np.array_equal(d, b_d)):
+            ctx.violation("input_mutated", {**cfg, "by": "gradient"}, detail=f"{stage}: gradient changed direction/wrt in place")
+        J = _fd_jac(ref, par2fun(b_arg))
+        g_ref = b_d @ J
+        if gk == "harness_exp":
+            g_ref = g_ref * 0.3 * np.exp(0.3 * b_arg)
+        sc = max(1.0, float(np.max(np.abs(g_ref))))
+        ctx.count("history_gradient_compared")
+        if np.shape(g) != g_ref.shape or float(np.max(np.abs(np.asarray(g, dtype=float) - g_ref))) > 1e-4 * sc:
+            ctx.violation("model_gradient_stale", {**cfg, "stage": stage}, detail=f"{stage}: gradient differs from the reference Jacobian product at the current point")
+
+    def same_count_grid(x, k):
+        return np.sort(rs.uniform(x[0], x[-1], k))
+
+    if scen in ("inplace_input", "inplace_input_grad"):
+        buf = newp()
+        use_grad = scen == "inplace_input_grad" and out_is_1d
+        d = rs.standard_normal(y0.size)
+        for step in range(4):
+            if step == 1:
+                buf *= 1.7
+            elif step == 2:
+                buf[int(rs.randint(0, m))] += 0.37
+            elif step == 3:
+                buf[::2] *= 0.5; buf += 0.05
+            forward_checked(buf, f"in-place update #{step}")
+            if use_grad:
+                gradient_checked(d, buf, f"in-place update #{step}")
+    elif scen == "output_mutated":
+        pfix = newp()
+        y = forward_checked(pfix, "first call")
+        if isinstance(y, np.ndarray) and y.flags.writeable and y.ndim >= 1:
+            returned.pop()
+            y *= 0.0
+            y += 7.0
+            ctx.count("returned_array_edited")
+        forward_checked(pfix, "same input object after the caller edited the returned array")
+        forward_checked(pfix.copy(), "equal input after the caller edited the returned array")
+    else:
+        pfix = newp()
+        forward_checked(pfix, "before the change of settings")
+        x = S["x"]
+        if scen == "settings_grid_obs":
+            k = len(S["grid_obs"]) if S["grid_obs"] is not None else len(x)
+            g = same_count_grid(x, k)
+            pde.grid_obs = g
+            S["grid_obs"] = g
+        elif scen == "settings_grid_sol":
+            x2 = np.asarray(x, dtype=float).copy()
+            x2[1:-1] += 0.3 * np.minimum(np.diff(x)[:-1], np.diff(x)[1:]) * rs.uniform(-1, 1, len(x) - 2)
+            if S["grid_obs"] is None:
+                S["grid_obs"] = x
+            pde.grid_sol = x2
+            S["x"] = x2
+        elif scen == "settings_map":
+            if case["map"] == "none":
+                S["rec_map"], S["ref_map"] = _mk_map(rs, "square", 0)
+            elif case["map"] == "square":
+                S["rec_map"], S["ref_map"] = None, (lambda u: u)
+            else:
+                W = S["rec_map"].fn.__defaults__[0]
+                W2 = rs.standard_normal(W.shape)
+                f = lambda u, W=W2: W @ np.asarray(u)
+                S["rec_map"], S["ref_map"] = RecCallable(f), f
+            pde.observation_map = S["rec_map"]
+        elif scen == "settings_method":
+            other = {"forward_euler": "backward_euler", "backward_euler": "forward_euler"}[S["method"]]
+            pde.method = other
+            S["method"] = other
+        forward_checked(pfix, "same input object after the change of settings")
+        forward_checked(pfix.copy(), "equal input after the change of settings")
+        if out_is_1d and scen != "settings_map":
+            gradient_checked(rs.standard_normal(y0.size), pfix, "after the change of settings")
+    # arrays handed out earlier must not change behind the caller's back
+    for arr, snap in returned:
+        ctx.count("returned_array_stability_checked")
+        if not np.array_equal(arr, snap, equal_nan=True):
+            ctx.violation("returned_array_overwritten", cfg, detail="an array returned by an earlier forward call changed during later calls")
+            break
+    ctx.nontrivial()
 
 
 # --------------------------------------------------------------------------- shipped PDE objects
@@ -1260,6 +1490,8 @@ def run_case(case, ctx):
         _run_observe(case, ctx, rs)
     elif k == "model":
         _run_model(case, ctx, rs)
+    elif k == "history":
+        _run_history(case, ctx, rs)
     elif k == "shipped":
         _run_shipped(case, ctx, rs)
     elif k == "misc":
